@@ -41,7 +41,7 @@ REQUIRED_TAGS = ['kind=identical', 'kind=compatible', 'pardim=1', 'pardim=2', 'p
                  'dir=invalid', 'orders-differ', 'orders-equal', 'periodicity-differs', 'both-periodic', 'open-only',
                  'rational-mixed', 'rational-both', 'dimension-differs', 'domains-differ', 'float-reparam',
                  'inserted-into-1', 'inserted-into-2', 'shared-knot-mult-differs', 'nothing-to-insert',
-                 'model-exact-map=exact-same', 'interior-mult>=2', 'defect-stream', 'rounded-periodic-input']
+                 'model-exact-map=exact-same', 'interior-mult>=2', 'defect-stream', 'rounded-periodic-input', 'near-knots']
 ASSUMPTIONS = ['np.linalg.inv / scipy spsolve inside raise_order are modelled by exact inverses (certificate-checked in the '
                'model); their rounding error is bounded by RTOL times the measured condition number of the collocation matrix',
                'BSplineBasis.reparam divides in floating point: knots are compared to 1e-12, and knots of the two objects that '
@@ -186,6 +186,38 @@ def _rounded_periodic_specs(rng, quick):
     return out
 
 
+def _near_knot_specs(rng, quick):
+    """Curves on [0,1] (no reparam arithmetic) whose interior knots are those of the partner shifted by
+    tiny dyadic amounts around `state.knot_tolerance` = 1e-10 (2^-35 .. 2^-31): inside, at the edge of
+    and just outside the tolerance window of `continuity`.  Probes the tolerance-based matching inside
+    the separation hypothesis of `C12_knot_merge_partial`; identity of the knot vectors is then only
+    demanded up to the knot tolerance (see `oracle`)."""
+    out = []
+    for i in range(16 if quick else 150):
+        p1, p2 = rng.randint(2, 4), rng.randint(2, 4)
+        base = sorted(rng.sample(POOL, rng.randint(1, 3)))
+        i1 = [(u, rng.randint(1, p1 - 1)) for u in base if rng.random() < 0.8]
+        i2 = []
+        for u in base:
+            if rng.random() < 0.85:
+                d = rng.choice([0.0, 2.0 ** -35, -2.0 ** -35, 2.0 ** -34, -2.0 ** -34, 2.0 ** -33, -2.0 ** -33,
+                                2.0 ** -32, 2.0 ** -31])
+                i2.append((u + d, rng.randint(1, p2 - 1)))
+        o1 = _obj(rng, [_basis(p1, -1, i1)], 2, False)
+        o2 = _obj(rng, [_basis(p2, -1, i2)], 2, rng.random() < 0.3)
+        if i % 2:
+            o1, o2 = o2, o1
+        out.append({'kind': 'identical', 'o1': o1, 'o2': o2, 'direction': rng.choice([None, 0, 'u']), 'stream': 'near-knots'})
+    # one object has two distinct knots (more than one tolerance apart) that BOTH lie inside the tolerance
+    # window of a single knot of the other object
+    for d in ([2.0 ** -34] if quick else [2.0 ** -34, 0.8e-10, 0.6e-10]):
+        u = rng.choice([0.25, 0.5, 0.75])
+        o1 = _obj(rng, [_basis(3, -1, [(u, 1)])], 2, False)
+        o2 = _obj(rng, [_basis(3, -1, [(u - d, 1), (u + d, 1)])], 2, False)
+        out.append({'kind': 'identical', 'o1': o1, 'o2': o2, 'direction': None, 'stream': 'near-knots', 'defect': 'straddle'})
+    return out
+
+
 def _defect_specs(rng, quick):
     """The known defect classes of the called methods (labels of C04/C05/C08), a handful each."""
     out = []
@@ -249,6 +281,7 @@ def generate(rng, tier):
               'cps': o1['cps'], 'rational': o1['rational']}
         specs.append({'kind': 'identical', 'o1': o1, 'o2': o2, 'direction': None})
     specs += _rounded_periodic_specs(rng, quick)
+    specs += _near_knot_specs(rng, quick)
     specs += _defect_specs(rng, quick)
     return specs
 
@@ -375,6 +408,39 @@ def _cmp_obj(iv, mv, rtol, path):
     if iv[4] != mdim:
         return '%s.dimension: impl %d vs model %d' % (path, iv[4], mdim)
     return diff(iv[2], mv[2], rtol, ATOL, path=path + '.cps')
+
+
+def _near_knots(s):
+    """Do the two objects have (normalised) knots in a requested direction that differ by less than
+    three knot tolerances without being equal?  Then `continuity`'s tolerance window decides what is
+    "the same knot", and the resulting vectors are identical only up to that tolerance."""
+    pd = len(s['o1']['bases'])
+    if len(s['o2']['bases']) != pd:
+        return False
+    for d in range(pd):
+        k1 = _norm_knots(s['o1']['bases'][d])
+        k2 = _norm_knots(s['o2']['bases'][d])
+        for x in k1:
+            for y in k2:
+                if x != y and abs(x - y) < 3 * gen.TOL:
+                    return True
+    return False
+
+
+def _straddle(s):
+    """Some knot of one object has two distinct knots of the other object (more than one tolerance
+    apart from each other) inside its tolerance window."""
+    pd = len(s['o1']['bases'])
+    if len(s['o2']['bases']) != pd:
+        return False
+    for d in range(pd):
+        ks = [_norm_knots(s['o1']['bases'][d]), _norm_knots(s['o2']['bases'][d])]
+        for a, b in ((ks[0], ks[1]), (ks[1], ks[0])):
+            for x in a:
+                near = [y for y in b if abs(x - y) < gen.TOL]
+                if len(near) >= 2:
+                    return True
+    return False
 
 
 def _inexact_periodic(s):
@@ -579,7 +645,8 @@ def oracle(sp, s):
                 fails.append('direction %d: orders %d and %d' % (d, ba.order, bb.order))
             if ba.periodic != bb.periodic:
                 fails.append('direction %d: periodicities %d and %d' % (d, ba.periodic, bb.periodic))
-            if len(ba.knots) != len(bb.knots) or np.max(np.abs(np.asarray(ba.knots) - np.asarray(bb.knots))) > KTOL:
+            ktol = KTOL if not _near_knots(s) else 1.0000001 * gen.TOL
+            if len(ba.knots) != len(bb.knots) or np.max(np.abs(np.asarray(ba.knots) - np.asarray(bb.knots))) > ktol:
                 fails.append('direction %d: knot vectors differ: %r and %r' % (d, np.asarray(ba.knots).tolist(), np.asarray(bb.knots).tolist()))
             for o_, nm in ((ba, 'object 1'), (bb, 'object 2')):
                 if abs(o_.start()) > KTOL or abs(o_.end() - 1.0) > KTOL:
@@ -619,6 +686,8 @@ def classify(s, res=None):
         return None
     if _inexact_periodic(s) and 'out of range' in txt:
         return 'periodic-rounded-ghost-knots-out-of-range'
+    if _straddle(s):
+        return 'knots-straddling-tolerance-window'
     small = any(_small(o['bases'][d]) for o in (s['o1'], s['o2']) for d in req)
     if small:
         differ = any(s['o1']['bases'][d]['periodic'] != s['o2']['bases'][d]['periodic'] for d in req)
@@ -652,6 +721,8 @@ def tags(s, res):
         out += ['defect-stream', 'defect=' + s['defect']]
     if _inexact_periodic(s):
         out.append('rounded-periodic-input')
+    if s['kind'] == 'identical' and _near_knots(s):
+        out.append('near-knots')
     if o1['rational'] != o2['rational']:
         out.append('rational-mixed')
     elif o1['rational']:
